@@ -572,18 +572,51 @@ Fixpoint tree_update (t : tree) (p : path) (u : upd Z) {struct t} : res tree :=
   | _, _ => Err EOther
   end.
 
-(** a modifier function: updates at paths, in order, on the copy it was given *)
-Fixpoint apply_modifier (t : tree) (ups : list (path * upd Z)) : res tree :=
+(** parameters.a.b.add_child(name, child): only nodes have add_child; a name that is
+    already taken is a ValueError; the new member is declared LAST. *)
+Fixpoint tree_add (t : tree) (p : path) (n : string) (c : tree) {struct t} : res tree :=
+  match t, p with
+  | TNode ch, [] =>
+      match find_child n ch with
+      | Some _ => Err EValue
+      | None => Ok (TNode (ch ++ [(n, c)]))
+      end
+  | TNode ch, m :: p' =>
+      match
+        (fix go (l : list (string * tree)) : res (list (string * tree)) :=
+           match l with
+           | [] => Err EOther
+           | (k, x) :: r =>
+               if String.eqb m k
+               then match tree_add x p' n c with Ok x' => Ok ((k, x') :: r) | Err e => Err e end
+               else match go r with Ok r' => Ok ((k, x) :: r') | Err e => Err e end
+           end) ch
+      with
+      | Ok ch' => Ok (TNode ch')
+      | Err e => Err e
+      end
+  | _, _ => Err EOther
+  end.
+
+(** what a modifier function does, step by step, on the copy it was given *)
+Inductive mitem :=
+  | MUpd (p : path) (u : upd Z)                (* parameters.p.update(...) *)
+  | MAdd (p : path) (n : string) (c : tree).   (* parameters.p.add_child(n, c) *)
+
+Definition apply_item (t : tree) (it : mitem) : res tree :=
+  match it with MUpd p u => tree_update t p u | MAdd p n c => tree_add t p n c end.
+
+Fixpoint apply_modifier (t : tree) (ups : list mitem) : res tree :=
   match ups with
   | [] => Ok t
-  | (p, u) :: r => match tree_update t p u with Ok t' => apply_modifier t' r | Err e => Err e end
+  | it :: r => match apply_item t it with Ok t' => apply_modifier t' r | Err e => Err e end
   end.
 
 Inductive op :=
   | Read (r : route) (p : path) (i : Z) (t : tail)
   | Load (t : tree)              (* load_parameters(directory), or system.parameters = node *)
   | NewReform                    (* SomeReform(system): a new system is added to the world *)
-  | Modify (ups : list (path * upd Z)) (returns_node : bool)   (* modify_parameters(modifier) *)
+  | Modify (ups : list mitem) (returns_node : bool)   (* modify_parameters(modifier) *)
   | Poke (p : path) (u : upd Z). (* system.parameters.p.update(...): in place, not a documented route *)
 
 Definition ans := (res rd * tlog)%type.
